@@ -122,6 +122,7 @@ func traverseAll(pj *simdjson.ParsedJson) (what string) {
 	it.FindElement(nil, "a", "b")
 	it = pj.Iter()
 	containers := 0
+	shallow := tapeDepth(pj) <= 3000
 	for i := 0; i < 4*len(pj.Tape)+8; i++ {
 		if it.PeekNextTag() == simdjson.TagEnd {
 			break
@@ -154,6 +155,10 @@ func traverseAll(pj *simdjson.ParsedJson) (what string) {
 				a2 = *arr
 				a2.MarshalJSON()
 				a2.FirstType()
+				if shallow && (containers <= 48 || len(pj.Tape) <= 4096) {
+					a2 = *arr
+					a2.Interface()
+				}
 			}
 		}
 	}
